@@ -49,6 +49,7 @@ pub fn export_keys(opts: &Opts) -> i32 {
 pub fn unwrap_tlc_line(line: &str, tag: &str) -> Option<Value> {
     let prefix = format!("<<\"{tag}\", ");
     let rest = line.strip_prefix(&prefix)?;
+    crate::util::set_input_line(line);
     let lit = rest.strip_suffix(">>")?;
     let s: String = serde_json::from_str(lit).ok()?;
     serde_json::from_str(&s).ok()
